@@ -494,6 +494,9 @@ def r8_parts_exist_before_they_are_formatted(ctx):
         recv = f.node.args.args[0].arg
         loops = [x for x in g.nodes if x.kind == 'for' and not x.dup and any(isinstance(y, ast.Attribute) and y.attr == '_parts' and is_name(y.value, recv) for y in ast.walk(x.ast.iter))]
         parses = [x for x in g.nodes if not x.dup for c in node_calls(x) if isinstance(c.func, ast.Attribute) and c.func.attr == '_parse' and is_name(c.func.value, recv)]
+        # ... or the body of _parse expanded in place by the loader
+        parses += [x for x in g.nodes if not x.dup and isinstance(x.ast, ast.AST) and getattr(x.ast, '_inlined_from', None) == '_parse']
+        parses += [x for x in g.nodes if not x.dup and x.kind in ('stmt', 'test') and isinstance(x.ast, ast.AST) and any(getattr(y, '_inlined_from', None) == '_parse' for y in [getattr(x.ast, '_parent', None)] if y is not None)]
         for lp in loops:
             n += 1
             wit = graph.must_pass([g.entry], lambda x: x is lp, through=parses, efilter=graph.normal_only)
